@@ -225,8 +225,8 @@ def access (pr : Prim) : Acc → SVal → AccRes
       | none => .err
   | .asFloat, .str _ => .err               -- symbolic strings are never parsed (inputs are literals)
   | .asBool, .bool b => .ok (.bool b)
-  | .asBool, .int n => .ok (.bool (decide (n > 0)))
-  | .asBool, .float f => .ok (.bool (pr.gt0 f))
+  | .asBool, .int n => .ok (.bool (decide (n ≠ 0)))
+  | .asBool, .float f => .ok (.bool (pr.ne0 f))
   | .asBool, .str s => .ok (.bool (!s.isEmpty))
   | .asBool, .null => .ok (.bool false)
 
